@@ -163,8 +163,101 @@ def rule_size(ctx, rep):
         raise Broken("only %d stores to cds_lfht.size found" % n)
 
 
+def rule_loop(ctx, rep):
+    from . import lfht
+    from .. import lockset
+    f = lfht.fn(ctx, "_do_cds_lfht_resize")
+    rep.touch(f)
+    z = [s for s in pat.stores(f, "cds_lfht.resize_initiated") if ir.const_of(f, s.args[0]) == 0]
+    tl = pat.loads(f, "cds_lfht.resize_target")
+    dl = pat.loads(f, "cds_lfht.in_progress_destroy")
+    work = pat.calls(f, "_do_cds_lfht_grow") + pat.calls(f, "_do_cds_lfht_shrink")
+    pat.require(z and tl and work, "_do_cds_lfht_resize anatomy")
+    after = [l for l in tl if f.reach(z, [l])[0] is not None and not any(f.dominates(l, w) for w in work)]
+    pat.require(after, "resize loop: re-read of resize_target after clearing resize_initiated")
+    rep.must_pass("C09.loop", "resize.initiated=0≺FULL≺target", f, z, after, mm.is_full,
+                  what="FULL barrier between clearing resize_initiated and re-reading resize_target (store→load pair with the lazy launcher)")
+    if not dl:
+        rep.bad("C09.loop", "resize.tests-destroy", "resize loop never tests in_progress_destroy", [f.name])
+    else:
+        rep.must_pass("C09.loop", "resize.destroy-test-first", f, [f.entry()], work, lambda i: i in dl, include_start=True, what="in_progress_destroy is tested before every grow/shrink round")
+    # loop exit only when size == target (or destroy)
+    scc = f.sccs()
+    pat.require(scc, "resize loop vanished")
+    for comp in scc:
+        for b in comp:
+            for s_ in f.blocks[b].succ:
+                if s_ in comp:
+                    continue
+                atoms = ir.edge_atoms(f, b, s_)
+                ok = any((a[0] == "eq" and a[1][0] == "load" and a[1][1].endswith("cds_lfht.size") and a[2][0] == "load" and a[2][1].endswith("cds_lfht.resize_target")) or
+                         (a[0] == "ne" and a[2] == ("c", 0) and a[1][0] == "load" and a[1][1].endswith("in_progress_destroy")) for a in atoms)
+                rep.check(ok, "C09.loop", "resize.exit@B%d" % b, "loop is left only when size == resize_target or the table is being destroyed",
+                          "resize loop can be left while size != resize_target: a target update made during the resize is lost", [f.blocks[b].insts[-1].where()])
+    g = lfht.fn(ctx, "__cds_lfht_resize_lazy_launch")
+    rep.touch(g)
+    q = pat.calls(g, "urcu_workqueue_queue_work")
+    pat.require(q, "lazy launch: queue_work")
+    for c in q:
+        lv = pat.dom_leaf_atoms(g, c)
+        oki = any(a[0] == "eq" and a[2] == ("c", 0) and a[1][0] == "load" and a[1][1].endswith("resize_initiated") for a in lv)
+        okd = any(a[0] == "eq" and a[2] == ("c", 0) and a[1][0] == "load" and a[1][1].endswith("in_progress_destroy") for a in lv)
+        rep.check(oki and okd, "C09.loop", "launch.guards", "resize work is queued only when none is initiated and the table is not being destroyed",
+                  "resize work queued without testing %s" % ", ".join(n for n, v in (("resize_initiated", oki), ("in_progress_destroy", okd)) if not v), [c.where()])
+    ones = [s for s in pat.stores(g, "cds_lfht.resize_initiated") if ir.const_of(g, s.args[0]) == 1]
+    rep.must_pass("C09.loop", "launch.sets-initiated", g, q, None, lambda i: i in ones, to_exit=True, what="resize_initiated is set after queueing the work")
+    # lazy callers: target update (FULL) precedes the launch test
+    for name in ("cds_lfht_resize_lazy_grow", "cds_lfht_resize_lazy_count"):
+        h = lfht.fn(ctx, name)
+        rep.touch(h)
+        la = pat.calls(h, "__cds_lfht_resize_lazy_launch")
+        pat.require(la, "%s: launch call" % name)
+        upd = pat.calls(h, "resize_target_grow") + [e.inst for e in pat.accesses(h, "cds_lfht.resize_target", ("cmpxchg", "xchg", "rmw"))]
+        rep.must_pass("C09.loop", name + ".target≺launch", h, [h.entry()], la, lambda i: i in upd, include_start=True,
+                      what="resize_target is updated (full-barrier RMW) before resize_initiated is tested")
+    # resize under resize_mutex
+    for name in ("cds_lfht_resize", "do_resize_cb"):
+        h = lfht.fn(ctx, name)
+        rep.touch(h)
+        ls = lockset.compute(h)
+        c = pat.calls(h, "_do_cds_lfht_resize")
+        pat.require(c, "%s: resize call" % name)
+        held = [x for x in c if any(k.endswith("cds_lfht.resize_mutex") for k in ls.get(x.id, ()))]
+        # wrappers mutex_lock/mutex_unlock are calls in this view: summarise by name
+        if not held:
+            ls = lockset.compute(h, summaries={})
+            lk = [x for x in pat.calls(h, "mutex_lock") if x.d["aps"][0] and pat.last_field(x.d["aps"][0]) == "cds_lfht.resize_mutex"]
+            ul = [x for x in pat.calls(h, "mutex_unlock") if x.d["aps"][0] and pat.last_field(x.d["aps"][0]) == "cds_lfht.resize_mutex"]
+            ok = bool(lk) and all(h.reach([h.entry()], [x], avoid=lambda i: i in lk, include_start=True)[0] is None for x in c) and all(h.reach(ul, [x])[0] is None for x in c)
+            rep.check(ok, "C09.lock", name, "_do_cds_lfht_resize runs with resize_mutex held", "_do_cds_lfht_resize called without resize_mutex: two resizes may run concurrently", [x.where() for x in c])
+        else:
+            rep.ok("C09.lock", name, "_do_cds_lfht_resize runs with resize_mutex held", [x.where() for x in c])
+    d = lfht.fn(ctx, "cds_lfht_destroy")
+    rep.touch(d)
+    q = pat.calls(d, "urcu_workqueue_queue_work")
+    fl = [s for s in pat.stores(d, "cds_lfht.in_progress_destroy") if ir.const_of(d, s.args[0]) == 1]
+    pat.require(q, "destroy: queue_work")
+    if not fl:
+        rep.bad("C09.destroy", "flag", "cds_lfht_destroy never sets in_progress_destroy: queued resizes keep running on a table being destroyed", [q[0].where()])
+    else:
+        rep.must_pass("C09.destroy", "flag≺queue", d, [d.entry()], q, lambda i: i in fl, include_start=True, what="in_progress_destroy is set before the destroy work is queued (same FIFO as resizes)")
+    for name in ("init_table", "fini_table"):
+        t = lfht.fn(ctx, name)
+        dl = pat.loads(t, "cds_lfht.in_progress_destroy")
+        rep.check(bool(dl) and all(x.blk.id in set().union(*t.sccs()) for x in dl), "C09.destroy", name + ".retests", "%s re-tests in_progress_destroy at every level" % name,
+                  "%s does not re-test in_progress_destroy inside its level loop" % name, [t.name])
+
+
+def rule_order(ctx, rep):
+    from . import lfht
+    lfht.rule_grow(ctx, rep, "C09.order")
+    lfht.rule_shrink(ctx, rep, "C09.order")
+
+
 RULES = [
     ("C09.pow2", rule_pow2),
     ("C09.size", rule_size),
+    ("C09.order", rule_order),
+    ("C09.loop", rule_loop),
 ]
 FLOORS = {"C09.pow2": 4}
